@@ -347,7 +347,7 @@ def run_pbt(prop, unit, tier, seed, known_ids, only=None):
                         agg["skipsamples"] += sr["skipsamples"]
                 if sr.get("top"):
                     agg.setdefault("top", [])
-                    agg["top"] = sorted(agg["top"] + sr["top"], key=lambda t: -t["ratio"])[:12]
+                    agg["top"] = sorted(agg["top"] + sr["top"], key=lambda t: -t["ratio"])[:int(os.environ.get("VF_TOP", "12"))]
                 if "failure" in sr:
                     failures.append(dict(kind="fail", sub=sr["sub"], failure=sr["failure"]))
         else:
@@ -705,14 +705,40 @@ def main():
         all_subs += res["subs"]
         units_info.append(dict(src=res["src"], kind=res["kind"], wall_s=round(time.time() - tu, 1)))
 
-    # known findings: print a line for each listed finding that was met (probe or generated)
+    # known findings: the fixed probe input of each listed finding is replayed; while it still fails the
+    # KNOWN-FINDING line is printed.  Generated cases inside a finding's region are counted in `met`.
     met = {}
     for s in all_subs:
         for kid, n in s.get("known", {}).items():
             met[kid] = met.get(kid, 0) + n
+    probe_state = {}
     for k in known:
-        if met.get(k["id"], 0) > 0:
-            print("KNOWN-FINDING: property=%s %s [%s, met %d times]" % (prop, k["what"], k["id"], met[k["id"]]))
+        state = "no-probe"
+        if k.get("probe") and not only:
+            for unit in spec["units"]:
+                if unit["kind"] != "pbt":
+                    continue
+                exe = build_unit(unit, unit.get("flavour", "num"))
+                lst = json.loads(run([exe, "list"]).stdout)
+                if not any(x["sub"] == k["probe"]["sub"] for x in lst):
+                    continue
+                pdir = os.path.join(BUILD, "tmp")
+                os.makedirs(pdir, exist_ok=True)
+                pf = os.path.join(pdir, "probe-%s-%d.json" % (k["id"], os.getpid()))
+                with open(pf, "w") as fh:
+                    json.dump(dict(sub=k["probe"]["sub"], rec=k["probe"]["rec"]), fh)
+                rc, out = replay_pbt(exe, pf, known_ids, timeout=int(k["probe"].get("timeout_s", 120)))
+                os.remove(pf)
+                state = "still-fails" if rc == 3 else ("passes-now" if rc == 0 else "unexpected rc=%s: %s" % (rc, out[-300:]))
+                break
+        probe_state[k["id"]] = state
+        if state == "still-fails" or (state == "no-probe" and met.get(k["id"], 0) > 0):
+            print("KNOWN-FINDING: property=%s %s [%s; probe %s; %d generated cases inside its region]" % (
+                prop, k["what"], k["id"], state, met.get(k["id"], 0)))
+        elif state == "passes-now":
+            notes.append("known finding %s: probe input no longer fails (entry can be moved to 'fixed')" % k["id"])
+        elif state.startswith("unexpected"):
+            notes.append("known finding %s: probe %s" % (k["id"], state))
 
     evals = sum(s.get("evaluations", 0) for s in all_subs)
     distinct = sum(s.get("distinct_nontrivial", 0) for s in all_subs)
@@ -726,7 +752,7 @@ def main():
               coverage=dict(evaluations=evals, distinct_nontrivial=distinct, rule=rule, samples=samples[:40],
                             subchecks=[{k: v for k, v in s.items() if k != "samples"} for s in all_subs],
                             units=units_info, inconclusive_notes=notes, flaky_discarded=discarded,
-                            known_findings_met=met,
+                            known_findings_met=met, known_probe_state=probe_state,
                             exhaustive=bool(all_subs) and all(s.get("exhaustive") is True for s in all_subs)),
               assumptions=spec.get("assumptions", []), wall_s=round(time.time() - t0, 2), violations=len(violations),
               tree=tree_hash())
